@@ -180,7 +180,7 @@ def wl_coincident(ctx, rng, case):
         sc.cleanup()
 
 
-def legit_stream(rng, keys, n, big=None):
+def legit_stream(rng, keys, n, big=None, amounts=(1, 1, 2, 3, 7, 100, 256, 65536)):
     """list of (op, key, amount) where removals never exceed the key's outstanding count within the stream"""
     out, cnt = [], Counter()
     for _ in range(n):
@@ -190,7 +190,7 @@ def legit_stream(rng, keys, n, big=None):
             out.append(("remove", k, a))
             cnt[k] -= a
         else:
-            a = rng.choice([1, 1, 2, 3, 7, 100, 65536])
+            a = rng.choice(amounts)
             out.append(("add", k, a))
             cnt[k] += a
     if big:
@@ -279,6 +279,12 @@ def wl_join(ctx, rng, case):
     if rng.random() < 0.12:
         B, cB = list(A), Counter(cA)
         ctx.count("identical_content_operand_pairs")
+    if rng.random() < 0.15:
+        # a SPARSE argument for a wide receiver: a handful of counters in use, their values with zero low bytes (multiples of 256 / 65536)
+        # or just beside them, the argument's total below the width
+        width = rng.choice([1000, 2048, 4099])
+        B, cB = legit_stream(rng, keys, rng.randint(1, 3), amounts=(256, 256, 512, 768, 255, 257, 1, 300, 65536, 2 * 65536, 2**24))
+        ctx.count("sparse_join_arguments_for_a_wide_receiver")
     arbitrary = rng.random() < 0.35
     if arbitrary:
         # any state the API can reach: removals of keys never added / over-removals (negative counters, totals that net to zero)
